@@ -381,7 +381,8 @@ impl<'a> Socket<'a> {
                     requested_ip: dhcp_repr.your_ip, // use the offered ip
                 });
             }
-            (ClientState::Requesting(state), DhcpMessageType::Ack) => {
+            // An ACK can only answer a request: ignore it until we have sent one.
+            (ClientState::Requesting(state), DhcpMessageType::Ack) if state.retry > 0 => {
                 if let Some((config, renew_at, rebind_at, expires_at)) =
                     Self::parse_ack(cx.now(), &dhcp_repr, self.max_lease_duration, state.server)
                 {
